@@ -24,7 +24,8 @@ package hamt
 //@ func (*hamt.hashBits).Next
 //@ requires 1 <= i && i <= 62
 //@ requires 0 <= hb.consumed && hb.consumed <= len(hb.b)*8
-//@ ensures err == nil ==> isBits(result, old(hb.b), old(hb.consumed), i) && hb.consumed == old(hb.consumed) + i
+//@ ensures err == nil ==> isBits(result, old(hb.b), old(hb.consumed), i)
+//@ ensures err == nil ==> hb.consumed == old(hb.consumed) + i
 //@ ensures err != nil ==> hb.consumed == old(hb.consumed)
 //@ ensures err == nil <==> old(hb.consumed) + i <= len(old(hb.b))*8
 //@ assigns hb.consumed
@@ -41,7 +42,7 @@ package hamt
 //@ spec def shardFanout(n *hamt._UnixFSHAMTShard) int64 = n.data.Fanout.v.x
 //@ typeinv hamt._UnixFSHAMTShard: wfData(self.data) && 8 <= shardFanout(self) && shardFanout(self) <= 1024 && len(self.bitfield) * 8 == shardFanout(self) && self.shardCache != nil && self._substrate != nil
 //@ typeinv hamt._UnixFSShardedDir__ListItr: 0 <= self.maxPadLen && self.nd != nil && self._substrate != nil
-//@ typeinv hamt.hashBits: 0 <= self.consumed && self.consumed <= len(self.b) * 8
+//@ typeinv hamt.hashBits: 0 <= self.consumed && self.consumed <= len(self.b) * 8 && 0 <= len(self.b) && len(self.b) <= (1 << 56)
 
 //@ func hamt.checkLogTwo
 //@ ensures err == nil <==> (v > 0 && (v & (v - 1)) == 0)
@@ -90,3 +91,20 @@ package hamt
 
 //@ func (hamt.stringTransformer).transformNameNode
 //@ requires recv-pad: 0 <= s.maxPadLen
+
+// ---------------------------------------------------------------------------------------------
+// C05 / C12: a lookup requests at most one shard per level of its hash path, and a failed load is
+// returned as the lookup's error.
+//@ props C05 C12 C13
+
+//@ func (*hamt._UnixFSHAMTShard).loadChild
+//@ domain counter-no-wrap: 0 <= loads && loads < (1 << 62)
+//@ ensures at-most-one-request: old(loads) <= loads && loads <= old(loads) + 1
+//@ ensures err != nil ==> result == nil
+
+//@ func (*hamt._UnixFSHAMTShard).lookup
+//@ domain counter-no-wrap: 0 <= loads && loads < (1 << 61) && loads + (len(hv.b) * 8 - hv.consumed) < (1 << 61)
+//@ ensures requests-monotone: old(loads) <= loads
+//@ ensures requests-bounded-by-path: loads - hv.consumed <= old(loads) - old(hv.consumed)
+//@ ensures consumed-grows: old(hv.consumed) <= hv.consumed
+//@ decreases len(hv.b) * 8 - hv.consumed
